@@ -561,8 +561,10 @@ def do_cons(w, op):
         Pref = B.shadow.copy()
         Parg = B.obj
         if bidx == a:
+            # the model is constrained by ITSELF (the same object on both sides): the recorded constraint must be a snapshot of
+            # the polynomial as it was, and the penalty is judged against that snapshot
             w.probe("constraint_on_itself")
-            return "skipped"
+            w.interesting = True
         if B.t == "dict" and any(len(set(k)) != len(k) for k in B.obj):
             return "skipped"
     else:
